@@ -57,6 +57,36 @@ impl Type {
     pub fn layout(&self, ctx: &BindgenContext) -> (r: Option<Layout>)
         ensures r == self.spec_layout(ctx),
     { unimplemented!() }
+    // the type behind typedefs / template aliases / resolved references (itself when it is none of those)
+    pub uninterp spec fn spec_canonical(&self, ctx: &BindgenContext) -> Type;
+    pub uninterp spec fn spec_is_canonical(&self, ctx: &BindgenContext) -> bool;
+    // Some((element, length)) for array types
+    pub uninterp spec fn spec_array(&self) -> Option<(TypeId, usize)>;
+    #[verifier::external_body]
+    pub fn canonical_type(&self, ctx: &BindgenContext) -> (r: &Type)
+        ensures *r == self.spec_canonical(ctx), self.spec_is_canonical(ctx) ==> *r == *self,
+    { unimplemented!() }
+    #[verifier::external_body]
+    pub fn kind(&self) -> (r: &TypeKind)
+        ensures match self.spec_array() { Some((t, n)) => *r == TypeKind::Array(t, n), None => *r == TypeKind::Other },
+    { unimplemented!() }
+}
+// std::ptr::eq on two type references: the same IR type
+#[verifier::external_body]
+pub fn type_ptr_eq(ctx: &BindgenContext, a: &Type, of: &Type) -> (r: bool)
+    ensures r == (of.spec_is_canonical(ctx)), r ==> *a == *of,
+{ unimplemented!() }
+#[derive(Clone, Copy, PartialEq, Eq)]
+pub struct TypeId(pub usize);
+// the kinds saw_field distinguishes
+#[derive(Clone, Copy, PartialEq, Eq)]
+pub enum TypeKind { Array(TypeId, usize), Other }
+impl BindgenContext {
+    pub uninterp spec fn spec_type(&self, id: TypeId) -> Type;
+    #[verifier::external_body]
+    pub fn resolve_type(&self, id: TypeId) -> (r: &Type)
+        ensures *r == self.spec_type(id),
+    { unimplemented!() }
 }
 
 #[derive(Clone, Copy)]
